@@ -15,6 +15,7 @@ from common import Machinery  # noqa: E402
 CHECKS = {
     "C01": ("hf", {}), "C02": ("hf", {}), "C10": ("hf", {}), "C12": ("hf", {}),
     "C20": ("c20", {}),
+    "C03": ("c03", {}),
 }
 
 
